@@ -132,7 +132,36 @@ fn run_case(seed: u64, idx: u64, _tier: Tier, out: &mut CaseOut) {
     if rng.chance(1, 3) {
         p.max_depth = 6;
     }
-    let doc = gen_doc(&mut rng, &p);
+    let mut doc = gen_doc(&mut rng, &p);
+    // inline elements that preserve white space (CSS white-space: pre / pre-wrap) in the
+    // middle of normal text, their content starting with a tab or with spaces
+    let mut ws_css = false;
+    if rng.chance(1, 8) {
+        let mut added = 0;
+        crate::ast::for_each_el_mut(&mut doc, &mut |e| {
+            if added >= 3 || !matches!(e.tag.as_str(), "p" | "li" | "div" | "td" | "blockquote" | "dd") {
+                return;
+            }
+            let words: Vec<usize> = e.children.iter().enumerate().filter(|(_, n)| matches!(n, crate::ast::Node::Word(_))).map(|(i, _)| i).collect();
+            if words.is_empty() || !rng.chance(1, 2) {
+                return;
+            }
+            let wi = *rng.pick(&words);
+            let lead = *rng.pick(&["\t", "\t\t", "  ", " \t", "\u{3000}\t", ""]);
+            let body = format!("{}pq{}rs", lead, rng.pick(&[" ", "\t", "  "]));
+            let style = *rng.pick(&["white-space:pre", "white-space: pre-wrap", "white-space:pre"]);
+            let el = crate::ast::El::with(*rng.pick(&["span", "em", "code"]), vec![crate::ast::Node::Raw(body)]).attr("style", style);
+            e.children.insert(wi + 1, el.node());
+            if rng.chance(2, 3) {
+                e.children.insert(wi + 1, crate::ast::Node::Space);
+            }
+            added += 1;
+        });
+        if added > 0 {
+            ws_css = true;
+            out.inc("docs_with_css_preserved_inline_space");
+        }
+    }
     let mut input = if rng.chance(2, 3) {
         ser_canonical(&doc)
     } else {
@@ -158,6 +187,9 @@ fn run_case(seed: u64, idx: u64, _tier: Tier, out: &mut CaseOut) {
     }
     let mut cfg = Cfg::new(any_deco(&mut rng));
     layout_opts(&mut rng, &mut cfg, w);
+    if ws_css {
+        cfg.use_doc_css = true;
+    }
     if rng.chance(1, 10) {
         // no minimum at all: a prefixed block may be left with zero columns
         cfg.min_wrap = Some(0);
